@@ -767,13 +767,67 @@ func (e *Env) Do(op Op) Res {
 		res.Err, res.Ack = ierr, false
 		e.Trace[len(e.Trace)-1] += fmt.Sprintf(" export_of=%s field=%s mutation=%s err=%v", ex.ID, tc.Field, tc.Mutation, ierr)
 		e.Run.Count("damaged_backups_restored_with_the_right_passphrase", 1)
+	case "import-into-pubpass-wallet":
+		// a backup restored into an EMPTY wallet whose PUBLIC passphrase happens to be the backup's passphrase, new
+		// passphrase omitted: if the wallet takes it, its private material must still not open with the public passphrase
+		if len(m.Exports) == 0 {
+			res.Note = "skipped"
+			break
+		}
+		ex := m.Exports[((op.X%len(m.Exports))+len(m.Exports))%len(m.Exports)]
+		od := filepath.Join(e.Dir, fmt.Sprintf("pubpass-wallet-%d", len(e.Trace)))
+		ow, oerr := Create(od, append([]byte{}, ex.Pass...), nil)
+		if oerr != nil {
+			res.Note = "skipped"
+			break
+		}
+		id, _, ierr := ow.M.ImportKeystore(ex.JSON, append([]byte{}, ex.Pass...), nil)
+		res.Err, res.Ack = ierr, false
+		e.Trace[len(e.Trace)-1] += fmt.Sprintf(" export_of=%s err=%v", ex.ID, ierr)
+		e.Run.Count("imports_into_a_wallet_whose_public_passphrase_is_the_file_passphrase", 1)
+		if ierr == nil {
+			for _, what := range OpenedWithoutPrivate(ow.Raw, id, ex.Pass, nil) {
+				e.Report([]string{"C04"}, "private-material-opens-without-private-passphrase", map[string]string{"blob": strings.SplitN(what, " opens with ", 2)[0], "key": strings.SplitN(what+" opens with ?", " opens with ", 3)[1]},
+					map[string]interface{}{"what": what, "wallet": "empty wallet whose public passphrase equals the imported file's passphrase; new passphrase omitted"})
+				break
+			}
+		}
+		ow.Close()
+		os.RemoveAll(od)
 	case "lock":
+		// key objects somebody obtained while the wallet was unlocked (the addresses NextAddresses returns carry them):
+		// Lock must wipe the scalars themselves, not only drop the wallet's references to them
+		var held []*pocec.PrivateKey
+		if !m.Locked {
+			for _, am := range w.M.GetManagedAddrManager() {
+				for _, ma := range am.ManagedAddresses() {
+					if pk := ma.PrivKey(); pk != nil && pk.D != nil && len(held) < 64 {
+						held = append(held, pk)
+					}
+				}
+			}
+		}
 		if f := e.front(); f != nil && f.Lock() == nil {
 		} else {
 			w.M.Lock()
 		}
 		res.Ack = true
 		m.Locked = true
+		for _, pk := range held {
+			words := pk.D.Bits()
+			words = words[:cap(words)]
+			left := 0
+			for _, x := range words {
+				if x != 0 {
+					left++
+				}
+			}
+			e.Run.Count("held_private_scalars_inspected_after_lock", 1)
+			if left > 0 {
+				e.Report([]string{"C03"}, "private-scalar-left-in-memory-after-lock", map[string]string{"where": "key object handed out while unlocked"}, map[string]interface{}{"non_zero_words": left, "words": len(words)})
+				break
+			}
+		}
 	case "unlock":
 		pass, pc := e.pass(op.PC)
 		res.Note = pc
